@@ -127,3 +127,42 @@ Theorem c18_broadcast_language_value : forall l base native tr,
   /\ (l <> base -> ~ has_translation tr l -> get_text_in [l; base] base native tr = (native, base)).
 Proof. exact get_text_in_pair. Qed.
 Print Assumptions c18_broadcast_language_value.
+
+(* the other senders of localized text.  An email carries the chain's choice for its subject and, independently,
+   for its body; it is skipped exactly when one of them is empty *)
+Theorem c18_send_email : forall contact_lang allowed base subject body tr_subject tr_body,
+  exists outs useds outb usedb,
+    spec_pick contact_lang allowed base [subject] tr_subject outs useds
+    /\ spec_pick contact_lang allowed base [body] tr_body outb usedb
+    /\ ((hd [] outs = [] \/ hd [] outb = []) ->
+        send_email_texts contact_lang allowed base subject body tr_subject tr_body = None)
+    /\ (hd [] outs <> [] -> hd [] outb <> [] ->
+        send_email_texts contact_lang allowed base subject body tr_subject tr_body
+        = Some (hd [] outs, hd [] outb)).
+Proof. exact send_email_spec. Qed.
+Print Assumptions c18_send_email.
+
+(* a spoken message (say_msg): text and audio URL are each the chain's choice; the locale names the language
+   actually used for its text *)
+Theorem c18_say_msg : forall contact_lang allowed base txt audio tr_txt tr_audio,
+  exists outt usedt outa useda,
+    spec_pick contact_lang allowed base [txt] tr_txt outt usedt
+    /\ spec_pick contact_lang allowed base [audio] tr_audio outa useda
+    /\ (hd [] outt = [] -> hd [] outa = [] ->
+        say_msg_out contact_lang allowed base txt audio tr_txt tr_audio = None)
+    /\ ((hd [] outt <> [] \/ hd [] outa <> []) ->
+        say_msg_out contact_lang allowed base txt audio tr_txt tr_audio
+        = Some {| i_text := hd [] outt; i_audio := hd [] outa; i_lang := usedt |}).
+Proof. exact say_msg_spec. Qed.
+Print Assumptions c18_say_msg.
+
+(* a played recording (play_audio) is a text-less message: the locale names the language used for its attachment *)
+Theorem c18_play_audio : forall contact_lang allowed base audio tr_audio,
+  exists out used,
+    spec_pick contact_lang allowed base [audio] tr_audio out used
+    /\ (hd [] out = [] -> play_audio_out contact_lang allowed base audio tr_audio = None)
+    /\ (hd [] out <> [] ->
+        play_audio_out contact_lang allowed base audio tr_audio
+        = Some {| i_text := []; i_audio := hd [] out; i_lang := used |}).
+Proof. exact play_audio_spec. Qed.
+Print Assumptions c18_play_audio.
